@@ -9,7 +9,7 @@ hooks = subprocess.run(["git", "-C", "/repo", "log", "--format=%h %s"], stdout=s
 hook_commits = [l.split()[0] for l in hooks if l.split(" ", 1)[1].startswith("verif:")]
 m = {
     "version": 1,
-    "setup_cmd": "bin/check build plain tsan asan",
+    "setup_cmd": "bin/check build plain tsan asan tsanat",
     "hooks": {
         "guard": "PISTACHE_VERIF_SIM",
         "enable": "the checks compile /repo/src/**/*.cc and the headers with -DPISTACHE_VERIF_SIM (sim/Makefile) and link them against the simulator through -Wl,--wrap seams",
